@@ -121,11 +121,13 @@ class QuantSuite(Suite):
                 return [columns.UniquePeptideCountColumns(), columns.IdentificationTypeColumns(),
                         columns.SummedIntensityAndIbaqColumns(ibaq, 0.01), columns.EvidenceIdsColumns()]
         recorded = []
+        levels = []
         real = fdr.calc_post_err_prob_cutoff
 
         def rec(peps, q):
             c = real(peps, q)
             recorded.append(([float(x) for x in peps], float(c)))
+            levels.append(float(q))
             return c
         fdr.calc_post_err_prob_cutoff = rec
         try:
@@ -137,6 +139,10 @@ class QuantSuite(Suite):
                 return {"raise": gens.exn_name(e), "parsed": parsed, "cutoffs": recorded}
         finally:
             fdr.calc_post_err_prob_cutoff = real
+        if any(q != float(case["fdr"]) for q in levels):
+            # the oracle's second argument is part of the contract: the identified-precursor cutoff is the one of the caller's level
+            return {"raise": "OtherError", "parsed": parsed, "cutoffs": recorded,
+                    "msg": f"cutoff function asked for level {levels} although the caller's PSM-level FDR is {case['fdr']}"}
         return {"parsed": parsed, "cutoffs": recorded, "experiments": list(pgr.experiments), "nsilac": pgr.num_silac_channels,
                 "attached": attached, "rows": [[r.proteinIds, list(r.extraColumns)] for r in pgr]}
 
